@@ -322,7 +322,7 @@ PurgeNext ==
      /\ SetLoc(p, [loc[p] EXCEPT !.todo = SetToSeq({htab[ip] : ip \in {i \in IPs : htab[i] # 0}})])
      /\ SessRUnlock(p) /\ Goto(p, "pg_next") /\ UNCHANGED <<Data, row, HVars, Flags>>
   \/ /\ pc[p] = "pg_next"
-     /\ IF loc[p].todo = <<>> THEN Goto(p, "pg_off") /\ UNCHANGED loc
+     /\ IF loc[p].todo = <<>> THEN Goto(p, "pg_og") /\ UNCHANGED loc
         ELSE SetLoc(p, [loc[p] EXCEPT !.host = Head(loc[p].todo), !.m = hobj[Head(loc[p].todo)].m, !.todo = Tail(@)]) /\ Goto(p, "pg_row_r")
      /\ UNCHANGED <<Data, sess, row, HVars, Flags>>
   \* e.MACEntry.Row.RLock(); classify; RUnlock
@@ -332,6 +332,8 @@ PurgeNext ==
         SetLoc(p, [loc[p] EXCEPT !.del = IF Stale(h) THEN Append(@, hobj[h].ip) ELSE @,
                                  !.off = IF hobj[h].online /\ hobj[h].seen < OfflineCut THEN Append(@, h) ELSE @])
      /\ RowRUnlock(p, loc[p].m) /\ Goto(p, "pg_next") /\ UNCHANGED <<Data, sess, HVars, Flags>>
+  \* gate "purge.offline": the scan is over, the makeOffline calls have not started
+  \/ /\ pc[p] = "pg_og" /\ Goto(p, "pg_off") /\ UNCHANGED <<Data, sess, row, loc, HVars, Flags>>
   \/ /\ pc[p] = "pg_off"
      /\ IF loc[p].off = <<>> THEN Goto(p, IF loc[p].del = <<>> THEN "done" ELSE "pg_g") /\ UNCHANGED loc
         ELSE SetLoc(p, [loc[p] EXCEPT !.ret = "pg_off", !.m = hobj[Head(loc[p].off)].m]) /\ Goto(p, "mo_w")
